@@ -47,10 +47,10 @@ BASELINE = {
     "execmutate": {"base": "v2", "site": "0", "mut": "duplicate"},
     "execdoc": {"doc": "valid2"},
     "execservice": {"doc": "valid2", "source": "file", "prior": "none", "addr": "good"},
-    "graffiti": {"file": "one", "fallback": "none", "loc": "plain", "use": "call"},
+    "graffiti": {"file": "one", "fallback": "none", "loc": "plain", "use": "call", "nodeclient": "na"},
     "builderbid": {"strat": "best", "addr": "good", "bid": "valid", "second": "none", "pkcfg": "none"},
-    "proposalbest": {"graffiti": "plain", "clen": "10", "nodeclient": "ok", "proposal": "ok", "n": "1"},
-    "proposer": {"auction": "none", "ver": "deneb", "blinded": "n", "body": "valid", "unblind": "ok", "graffiti": "none"},
+    "proposalbest": {"strat": "best", "graffiti": "plain", "clen": "10", "nodeclient": "ok", "nodeclient1": "na", "proposal": "ok", "n": "1"},
+    "proposer": {"auction": "none", "ver": "deneb", "blinded": "n", "body": "valid", "unblind": "ok", "graffiti": "none", "nodeclient": "ok"},
     "attester": {"body": "valid", "slot": "64", "duty": "one"},
     "aggregator": {"body": "valid", "slot": "64", "account": "present"},
     "syncmessenger": {"body": "valid", "accounts": "all", "slot": "64"},
@@ -63,6 +63,9 @@ MAX_GROUPS = 16
 LONG_LIVED = ["execservice", "graffiti", "builderbid", "proposalbest", "proposer", "attester", "aggregator",
               "syncmessenger", "syncaggregator", "mergeduties", "cacheevents", "submitclassify"]
 # control designs (spec/RobustnessMemo.tla): cfg suffix -> the invariant TLC must report (None = must pass)
+# control designs for the auxiliary requests (spec/RobustnessAux.tla)
+AUX_SELF_CHECKS = {"narrow": None, "checked": None, "caller": None, "deref": "KeepsRunning", "goroutine": "KeepsRunning",
+                   "kindsplit": "KeepsRunning"}
 SELF_CHECKS = {"fresh": None, "shared_seq": None, "nilmemo": "KeepsRunning", "poison": "HistoryIndependent",
                "lock": "MTotal", "shared": "KeepsRunning"}
 
@@ -173,16 +176,27 @@ def scenarios(tier, scen_cfg):
 
 # quick tier: share of the lattice points of an entry point whose histories are run (seeded); the degenerate
 # relay-key / relay-address / document shapes whose first call can leave something behind are always kept
-QUICK_SEQ = {"attester": 0.34, "proposalbest": 0.35, "graffiti": 0.35, "submitclassify": 0.25, "execservice": 0.35,
-             "proposer": 0.5, "mergeduties": 0.6, "syncmessenger": 0.6, "builderbid": 0.35}
+QUICK_SEQ = {"attester": 0.34, "proposalbest": 0.15, "graffiti": 0.25, "submitclassify": 0.25, "execservice": 0.35,
+             "proposer": 0.4, "mergeduties": 0.6, "syncmessenger": 0.6, "builderbid": 0.35}
 QUICK_OVERLAP = 0.12
 QUICK_RANDOM = 60
 THOROUGH_RANDOM = 400
 
 
+AUX_FAULTS = ("error", "timeout", "canceled", "notactive", "down")
+
+
 def always(h):
-    """Histories that the quick tier never drops: relay keys and keyed relay addresses (both sources)."""
+    """Histories that the quick tier never drops: relay keys and keyed relay addresses (both sources); one template per
+    entry point with every fault kind of the auxiliary request behind it (sequential history; for the strategy also with
+    a second, healthy node and the overlapping history)."""
     s = h["of"]
+    if h["ep"] == "proposalbest" and s.get("strat") == "best" and s.get("graffiti") == "prefix" and s.get("proposal") == "ok" \
+            and s.get("nodeclient") in AUX_FAULTS and s.get("nodeclient1") in ("na", "ok"):
+        return True
+    if h["tmpl"] == "seq" and ((h["ep"] == "proposer" and s.get("graffiti") == "client" and s.get("nodeclient") in AUX_FAULTS) or
+                               (h["ep"] == "graffiti" and s.get("file") == "client" and s.get("nodeclient") in AUX_FAULTS)):
+        return True
     return (h["ep"] == "builderbid" and (s.get("pkcfg") == "badpoint" or s.get("addr") in ("badkeyed", "shortkeyed"))) or \
            (h["ep"] == "execservice" and (s.get("pk") == "badpoint" or s.get("addr") in ("badkeyed", "shortkeyed")))
 
@@ -193,13 +207,17 @@ def histories(tier, cfgs):
     active = [e for e in eps() if e in LONG_LIVED]
     if not active:
         return []
-    r = vf.tlc(PID, "scen-inst", "Scen_RobustnessInst", cfgs["Scen_RobustnessInst"], workers=1, timeout=600, aseed=vf.seed())
+    nrandom = QUICK_RANDOM if tier == "quick" else THOROUGH_RANDOM
+    with ThreadPoolExecutor(max_workers=1) as ex:     # the random histories are generated next to the enumerated ones
+        fr = ex.submit(vf.tlc_scenarios, PID, "Scen_RobustnessInst", cfgs["Scen_RobustnessInst_random"], num=nrandom, depth=8,
+                       name="scen-inst-random", timeout=300)
+        r = vf.tlc(PID, "scen-inst", "Scen_RobustnessInst", cfgs["Scen_RobustnessInst"], workers=1, timeout=600, aseed=vf.seed())
+        rs = fr.result()
     if r["timed_out"] or r["kind"] in ("invariant", "action_property", "error", "deadlock"):
         raise vf.Broken("history generation failed (%s %s):\n%s" % (r["kind"], r["violated"], r["out"][-3000:]))
     hs = [h for h in vf.tlc_emitted(r["out"]) if isinstance(h, dict) and h.get("steps")]
     hs.sort(key=lambda h: (h["ep"], h["tmpl"], json.dumps(h["of"], sort_keys=True)))
     vf.log("TLC generated %d histories from Scen_RobustnessInst/%s" % (len(hs), cfgs["Scen_RobustnessInst"]))
-    nrandom = THOROUGH_RANDOM
     if tier == "quick":
         rnd = random.Random(vf.seed() * 7919 + 1)
         keep = []
@@ -208,9 +226,6 @@ def histories(tier, cfgs):
             if always(h) or h["of"] == h["inst"] and h["tmpl"] == "seq" or rnd.random() < share:
                 keep.append(h)
         hs = keep
-        nrandom = QUICK_RANDOM
-    rs = vf.tlc_scenarios(PID, "Scen_RobustnessInst", cfgs["Scen_RobustnessInst_random"], num=nrandom, depth=8,
-                          name="scen-inst-random", timeout=300)
     rs = [h for h in rs if isinstance(h, dict) and h.get("steps")]
     # one behaviour prints its last two states: keep the longest plan of each
     best = {}
@@ -412,6 +427,19 @@ def check(v, sc, cfgs, full=True):
             k = (r.get("ep"), r.get("outcome") or r["ev"].lower())
             outcomes[k] = outcomes.get(k, 0) + 1
     v.coverage["outcomes"] = {"%s/%s" % k: n for k, n in sorted(outcomes.items())}
+    # auxiliary requests the real code really made (logged by the fake that was asked) and what they were answered
+    aux = {}
+    for r in rows:
+        if r.get("ev") == "Aux":
+            k = "%s: %s = %s" % (r.get("ep"), r.get("req"), r.get("answer"))
+            aux[k] = aux.get(k, 0) + 1
+    v.coverage["auxiliary_requests_answered"] = dict(sorted(aux.items()))
+    if full:
+        for ep in ("proposalbest", "proposer", "graffiti"):
+            if any(s["ep"] == ep for s in lattice) and not any(
+                    r.get("ev") == "Aux" and r.get("ep") == ep and r.get("delivered") == "fault" for r in rows):
+                raise vf.Broken("no auxiliary request of %s was answered with a fault: the harness does not reach the node "
+                                "version request behind {{CLIENT}} (the environment's alphabet is not being presented)" % ep)
     dps = {}
     for r in rows:
         if r.get("ev") == "DecoderPanic":
@@ -440,19 +468,24 @@ def check(v, sc, cfgs, full=True):
 def self_checks(v):
     """The control designs of spec/RobustnessMemo.tla: right on every fresh instance, wrong over histories / overlap.
     TLC must say exactly that; anything else means the history invariants have lost their teeth (broken run)."""
-    def one(name):
-        return name, vf.tlc(PID, "memo-" + name, "RobustnessMemo", "MC_RobustnessMemo_%s.cfg" % name, workers=2, timeout=300)
-    res = {}
+    def one(job):
+        module, name = job
+        return job, vf.tlc(PID, "%s-%s" % ("memo" if module == "RobustnessMemo" else "aux", name), module,
+                           "MC_%s_%s.cfg" % (module, name), workers=2, timeout=300)
+    jobs = [("RobustnessMemo", n) for n in sorted(SELF_CHECKS)] + [("RobustnessAux", n) for n in sorted(AUX_SELF_CHECKS)]
+    res = {"RobustnessMemo": {}, "RobustnessAux": {}}
     with ThreadPoolExecutor(max_workers=6) as ex:
-        for name, r in ex.map(one, sorted(SELF_CHECKS)):
-            want = SELF_CHECKS[name]
+        for (module, name), r in ex.map(one, jobs):
+            want = (SELF_CHECKS if module == "RobustnessMemo" else AUX_SELF_CHECKS)[name]
             got = r["violated"] if not r["ok"] else None
             if r["timed_out"] or r["kind"] == "error" or got != want:
-                raise vf.Broken("self-check RobustnessMemo/%s: expected %s, TLC reports %s (%s); see %s/tlc.out" % (
-                    name, want or "no violation", got or "no violation", r["kind"], r["dir"]))
-            res[name] = "%s (%d states)" % (("rejected: " + want) if want else "passes", r["distinct"])
-    v.coverage["self_checks"] = res
-    vf.log("control designs (RobustnessMemo): " + ", ".join("%s %s" % (k, x) for k, x in sorted(res.items())))
+                raise vf.Broken("self-check %s/%s: expected %s, TLC reports %s (%s); see %s/tlc.out" % (
+                    module, name, want or "no violation", got or "no violation", r["kind"], r["dir"]))
+            res[module][name] = "%s (%d states)" % (("rejected: " + want) if want else "passes", r["distinct"])
+    v.coverage["self_checks"] = res["RobustnessMemo"]
+    v.coverage["self_checks_auxiliary_requests"] = res["RobustnessAux"]
+    for module in ("RobustnessMemo", "RobustnessAux"):
+        vf.log("control designs (%s): " % module + ", ".join("%s %s" % (k, x) for k, x in sorted(res[module].items())))
 
 
 def run(tier):
